@@ -40,10 +40,28 @@ def generate(run_seed, tier, index):
         ops.append([pool[int(r.integers(len(pool)))], int(r.integers(2 ** 31))])
     return dict(format=1, kind='program', world_seed=int(r.integers(2 ** 31)),
                 initial_size=[4, 16, 10000][int(r.integers(3))], ops=ops,
-                run_seed=int(run_seed))
+                cold_replay=bool(r.random() < 0.35), run_seed=int(run_seed))
 
 
 # --------------------------------------------------------------------- execution
+_PYINS_MODULES = ['util', 'earth', 'transform', 'kalman', 'error_model', 'inertial_sensor',
+                  'measurements', 'strapdown', 'sim', 'filters']
+
+
+def reset_module_state():
+    """Re-execute the pyins modules (all but the compiled kernel) in place.
+
+    Module-level state - caches, mutated class attributes, accumulated defaults - is
+    re-initialised, while function objects created earlier keep working because reload
+    re-uses the module dictionaries they refer to.  This is the in-process stand-in for
+    "a fresh interpreter" in the isolated-replay monitor.
+    """
+    import importlib
+    import sys
+    for n in _PYINS_MODULES:
+        importlib.reload(sys.modules['pyins.' + n])
+
+
 def _state_digest(obj, ignore=()):
     """Observable state of an object argument."""
     from pyins import strapdown
@@ -279,7 +297,10 @@ def execute(sc, only_first=True):
                 break
         # ---- 3. isolated replay of every call from its pre-call copies
         if not viol:
+            reset_module_state()
             for (k, call, forms, pre, dres, desc) in records:
+                if sc.get('cold_replay'):
+                    reset_module_state()
                 try:
                     a3, k3 = _materialise_args(call, *copy.deepcopy(pre), forms)
                     res3 = call.fn(*a3, **k3)
@@ -289,8 +310,9 @@ def execute(sc, only_first=True):
                     desc += f" (raised {_exc(e)})"
                 if not same:
                     viol.append(V('history-dependence',
-                                  f"call #{k} {desc}: re-executed alone after the program, "
-                                  f"from the inputs it had, it gives a different result",
+                                  f"call #{k} {desc}: re-executed alone after the program "
+                                  f"(module state re-initialised), from the inputs it had, "
+                                  f"it gives a different result",
                                   f"history-dependence/{call.name}"))
                     break
     return dict(violations=viol, digest=digest(digs),
@@ -301,7 +323,9 @@ def execute(sc, only_first=True):
                 faults={'argument_form_varied': stats['formed_calls'],
                         'scalar_vs_stacked': stats['row0_calls'],
                         'result_fed_back_into_pool': stats['pool_reuse'],
-                        'capacity_knob_small': int(sc.get('initial_size', 10000) < 10000)},
+                        'capacity_knob_small': int(sc.get('initial_size', 10000) < 10000),
+                        'module_state_reset_before_each_replayed_call':
+                            int(bool(sc.get('cold_replay')))},
                 sim_s=0.0, ops=stats['calls'],
                 extra=dict(calls=stats['calls'], filter_runs=stats['filters']))
 
